@@ -713,6 +713,8 @@ impl<'c> Gen<'c> {
                 for _ in 0..n {
                     es.push(self.expr(t, sub, inner_fix));
                 }
+                let tys: Vec<Ty> = es.iter().map(|_| (**t).clone()).collect();
+                self.late_mutation(&mut es, &tys, sub);
                 Expr::List(es)
             }
             Ty::Result(a, b) => {
@@ -742,9 +744,18 @@ impl<'c> Gen<'c> {
                 self.shuffle(&mut fields);
                 let inner_fix = if !generic { Fix::Direct } else { inner_fix(fix) };
                 let mut out = Vec::new();
-                for (n, t) in fields {
-                    let e = self.expr(&t, sub, inner_fix);
-                    out.push((n, e));
+                for (n, t) in &fields {
+                    let e = self.expr(t, sub, inner_fix);
+                    out.push((n.clone(), e));
+                }
+                {
+                    // fields are evaluated in the order in which they are written
+                    let tys: Vec<Ty> = fields.iter().map(|(_, t)| t.clone()).collect();
+                    let mut es: Vec<Expr> = out.iter().map(|(_, e)| e.clone()).collect();
+                    self.late_mutation(&mut es, &tys, sub);
+                    for (k, e) in es.into_iter().enumerate() {
+                        out[k].1 = e;
+                    }
                 }
                 // anonymous literal coerces to the named record when the context gives the type
                 let anon = fix == Fix::Direct && self.c.chance(50);
@@ -768,9 +779,10 @@ impl<'c> Gen<'c> {
                 let (vn, ts) = vs[self.c.below(vs.len())].clone();
                 let inner_fix = if !generic { Fix::Direct } else { inner_fix(fix) };
                 let mut args = Vec::new();
-                for t in ts {
-                    args.push(self.expr(&t, sub, inner_fix));
+                for t in &ts {
+                    args.push(self.expr(t, sub, inner_fix));
                 }
+                self.late_mutation(&mut args, &ts, sub);
                 Expr::Ctor(name, vn, args)
             }
             Ty::Tr => {
@@ -895,6 +907,10 @@ impl<'c> Gen<'c> {
                         } else {
                             let a = self.expr(&Ty::Int(IntTy::I32), d, Fix::Direct);
                             let b = self.expr(&Ty::Int(IntTy::I32), d, Fix::Direct);
+                            // receiver first, then the arguments
+                            let mut ops = [r, a, b];
+                            self.late_mutation(&mut ops, &[Ty::Tr, Ty::Int(IntTy::I32), Ty::Int(IntTy::I32)], d);
+                            let [r, a, b] = ops;
                             Expr::Method(Box::new(r), "m".into(), vec![a, b])
                         }
                     }
@@ -981,6 +997,9 @@ impl<'c> Gen<'c> {
                         // concatenation: the left operand must be a String when it is checked
                         let a = self.expr(ty, d, Fix::No);
                         let b = self.expr(ty, d, Fix::Direct);
+                        let mut ops = [a, b];
+                        self.late_mutation(&mut ops, &[Ty::Str, Ty::Str], d);
+                        let [a, b] = ops;
                         Expr::Bin(BinOp::Add, Box::new(a), Box::new(b))
                     }
                     2 | 3 => self.fstring(d),
@@ -992,6 +1011,9 @@ impl<'c> Gen<'c> {
                     5 => {
                         let r = self.expr(ty, d, Fix::Exact);
                         let a = self.expr(ty, d, Fix::Direct);
+                        let mut ops = [r, a];
+                        self.late_mutation(&mut ops, &[Ty::Str, Ty::Str], d);
+                        let [r, a] = ops;
                         Expr::Method(Box::new(r), "append".into(), vec![a])
                     }
                     _ => self.leaf(ty, fix),
@@ -1062,6 +1084,29 @@ impl<'c> Gen<'c> {
         self.expr(ty, 1, Fix::No)
     }
 
+    /// "Late mutation": one operand becomes a plain read of an assignable place and a later operand
+    /// becomes a block that first assigns to that place.  Operands are evaluated left to right and a
+    /// read yields a value, so the earlier operand keeps what the place held before the assignment.
+    fn late_mutation(&mut self, operands: &mut [Expr], tys: &[Ty], d: u32) {
+        if operands.len() < 2 || operands.len() != tys.len() || self.in_const || !self.c.chance(36) {
+            return;
+        }
+        let i = self.c.below(operands.len() - 1);
+        let j = i + 1 + self.c.below(operands.len() - 1 - i);
+        if matches!(tys[i], Ty::Param(_) | Ty::Unit) || mentions_anon(&tys[i]) || !self.spend(3) {
+            return;
+        }
+        let ps = self.places_of_x(&tys[i], true, true);
+        if ps.is_empty() {
+            return;
+        }
+        let p = ps[self.c.below(ps.len())].clone();
+        let newv = self.expr(&tys[i], d.min(1), Fix::Direct);
+        operands[i] = Self::place_expr(&p);
+        let old = std::mem::replace(&mut operands[j], Expr::Var(String::new()));
+        operands[j] = Expr::Block(Block { stmts: vec![Stmt::Expr(Expr::Assign(p, Box::new(newv)))], tail: Some(Box::new(old)) });
+    }
+
     fn arith(&mut self, ty: &Ty, op: BinOp, d: u32, fix: Fix) -> Expr {
         // a constant initialiser runs while the script is compiled: nothing that may trap there
         let op = if self.in_const && ty.is_int() && matches!(op, BinOp::Div | BinOp::Rem) { BinOp::Add } else { op };
@@ -1098,6 +1143,9 @@ impl<'c> Gen<'c> {
                 }
             }
         }
+        let mut ops = [l, r];
+        self.late_mutation(&mut ops, &[ty.clone(), ty.clone()], d);
+        let [l, r] = ops;
         Expr::Bin(op, Box::new(l), Box::new(r))
     }
 
@@ -1114,6 +1162,9 @@ impl<'c> Gen<'c> {
             };
             let l = self.expr(&t, d, Fix::No);
             let r = self.expr(&t, d, Fix::Direct);
+            let mut ops = [l, r];
+            self.late_mutation(&mut ops, &[t.clone(), t.clone()], d);
+            let [l, r] = ops;
             Expr::Bin(op, Box::new(l), Box::new(r))
         } else {
             // structural equality on any value type
@@ -1126,6 +1177,9 @@ impl<'c> Gen<'c> {
             }
             let l = self.leaf_known(&t);
             let r = self.expr(&t, d, Fix::Direct);
+            let mut ops = [l, r];
+            self.late_mutation(&mut ops, &[t.clone(), t.clone()], d);
+            let [l, r] = ops;
             Expr::Bin(op, Box::new(l), Box::new(r))
         }
     }
@@ -1205,6 +1259,10 @@ impl<'c> Gen<'c> {
             } else {
                 args.push(self.expr(pt, d.min(2), Fix::Direct));
             }
+        }
+        if args.len() >= 3 {
+            let tys: Vec<Ty> = params.iter().skip(1).map(|(_, t)| t.clone()).collect();
+            self.late_mutation(&mut args[1..], &tys, d);
         }
         let call = Expr::Call(j, args);
         if forward {
